@@ -12,7 +12,9 @@
 # See the License for the specific language governing permissions and
 # limitations under the License.
 
+import hashlib
 import json
+import os
 import shutil
 from pathlib import Path
 
@@ -75,10 +77,26 @@ class FileReaderWriter:
     def _write(self, filename: Path, content: str):
         filename.parent.mkdir(parents=True, exist_ok=True)
         filename.write_text(content)
+        if os.environ.get("PYDJINNI_VERIF") == "1":
+            self._verif_record("write", filename)
 
     def _copy(self, source_file: Path, target_file: Path):
         target_file.parent.mkdir(parents=True, exist_ok=True)
         shutil.copy(source_file, target_file)
+        if os.environ.get("PYDJINNI_VERIF") == "1":
+            self._verif_record("copy", target_file)
+
+    def _verif_record(self, op: str, filename: Path):
+        # verification hook (PYDJINNI_VERIF=1 only): every write/copy as (op, path as given, sha256 of the bytes
+        # that are in the file afterwards), kept on this object and appended to $PYDJINNI_VERIF_WRITELOG if set.
+        entry = (op, str(filename), hashlib.sha256(filename.read_bytes()).hexdigest())
+        if not hasattr(self, "_verif_log"):
+            self._verif_log = []
+        self._verif_log.append(entry)
+        log_file = os.environ.get("PYDJINNI_VERIF_WRITELOG")
+        if log_file:
+            with open(log_file, "a") as log:
+                log.write(json.dumps(entry) + "\n")
 
     def copy_source_directory(self, key: str, source_dir: Path, target_dir: Path, append: bool = True):
         if source_dir.exists():
